@@ -499,6 +499,61 @@ def updOneProg (prog : List (Bool × AOp)) (s : SimState) (g : Game) (name : Nam
     | .ok a' => .ok { g with agents := setAgent name a' g.agents }
 
 
+/-! ### `setup_reward_sharing` as the program its source is (Gen/Reward.lean `setupSharingProgram`, extracted on every run) -/
+
+/-- a statement under `if isinstance(comp, SharedReward):` in the loop over an agent's components -/
+inductive SOp
+  /-- `graph[name].add(comp.config.agent_name)` -/
+  | addArc
+  /-- `comp.callback = lambda agent_name: self.agents[agent_name].reward_function.current_reward` -/
+  | setCallback
+deriving DecidableEq, Repr
+
+/-- a statement after the loops -/
+inductive TOp
+  /-- `if graph_has_cycle(graph): raise RuntimeError(…)` -/
+  | raiseIfCycle
+  /-- `self._reward_calculation_order = topological_sort(graph)` -/
+  | assignOrder
+deriving DecidableEq, Repr
+
+/-- `graph = {}`; `for name, agent in self.agents.items(): graph[name] = set(); for comp, weight in …reward_components:
+if isinstance(comp, SharedReward): <perShared>`; then `<tail>` — the statements in source order -/
+structure SetupProg where
+  perShared : List SOp
+  tail : List TOp
+deriving Repr
+
+/-- what one shared component named `a` adds to the agent's set, statement by statement -/
+def addsOf (a : Name) : List SOp → List Name
+  | [] => []
+  | .addArc :: r => a :: addsOf a r
+  | .setCallback :: r => addsOf a r
+
+/-- the names added to `graph[name]`, in the order of the `add` calls -/
+def insertedNames (ops : List SOp) : List (Comp × Val) → List Name
+  | [] => []
+  | (.shared a, _) :: rest => addsOf a ops ++ insertedNames ops rest
+  | _ :: rest => insertedNames ops rest
+
+/-- the graph the translated loops build (`σ` = iteration order of the Python `set` built by these `add` calls) -/
+def progGraph (σ : List Name → List Name) (prog : SetupProg) (as : List (Name × Agent)) : Graph Name :=
+  as.map (fun p => (p.1, σ (insertedNames prog.perShared p.2.comps)))
+
+/-- the statements after the loops: `none` = `_reward_calculation_order` not assigned so far -/
+def runTail (g : Graph Name) : List TOp → Option (List Name) → Except Err (Option (List Name))
+  | [], o => .ok o
+  | .raiseIfCycle :: r, o => if hasCycle g then .error .cycle else runTail g r o
+  | .assignOrder :: r, _ => runTail g r (some (topoSort g))
+
+/-- a translated `setup_reward_sharing`: the evaluation order it leaves in `_reward_calculation_order`, or what it raises
+(`attributeError`: the order is never assigned — the first `update_agents` would fail) -/
+def setupProg (σ : List Name → List Name) (prog : SetupProg) (as : List (Name × Agent)) : Except Err (List Name) :=
+  match runTail (progGraph σ prog as) prog.tail none with
+  | .error e => .error e
+  | .ok none => .error .attributeError
+  | .ok (some o) => .ok o
+
 /-! ### The three step pipelines (`PrimaiteGame.step`, `PrimaiteGymEnv.step`, `PrimaiteRayMARLEnv.step`) as the sequences of calls
 their sources are (Gen/Reward.lean `stepPipelines`, extracted on every run): WHEN the rewards are computed relative to the
 simulator's tick, on WHICH snapshot of the state, and WHAT the environment returns as the reward. -/
